@@ -111,7 +111,7 @@ def hashset_run(ctx, cases, label):
     crash = [r for r in res if "_harness_exit" in r or "_bad_case" in r]
     summ = [r for r in res if r.get("summary")]
     events = [r for r in res if "ev" in r]
-    if crash or not summ or summ[0]["cases"] != len(cases):
+    if crash or not summ or (summ[0]["cases"] != len(cases) and not summ[0].get("hangs")):
         raise vlib.MachineryError("util hashset harness died (%s): %s" % (label, (crash or res[-1:])))
     if summ[0]["drift"]:
         ctx.drift("action=add/remove %d replies differ from the mechanism model (%s)" %
@@ -230,7 +230,7 @@ def bufio_run(ctx, cases, label):
     crash = [r for r in res if "_harness_exit" in r or "_bad_case" in r]
     summ = [r for r in res if r.get("summary")]
     events = [r for r in res if "ev" in r]
-    if crash or not summ or summ[0]["cases"] != len(cases):
+    if crash or not summ or (summ[0]["cases"] != len(cases) and not summ[0].get("hangs")):
         raise vlib.MachineryError("util bufio harness died (%s): %s" % (label, (crash or res[-1:])))
     if summ[0]["drift"]:
         ctx.drift("action=Buffered() %d values differ from the mechanism model (after %s)" %
